@@ -25,6 +25,8 @@ Families
                   Oracle in price space (no division by a vanishing vega).
   iv_bound        modules attached to a derivative: price() / implied_volatility() with the arguments read from the
                   derivative's buffers (scripted market, all paths).
+  iv_bracket      find_implied_volatility with lower / upper keywords (0.001..4, 0..1, 0..4), volatilities up to 3.9,
+                  strict |result - sigma| <= precision oracle.
   iv_subulp       precision below the float spacing of the price dtype through every implied-volatility entry point
                   (find_implied_volatility on module / functional prices, the 4 modules; float32 and float64).
   iv_history      histories of implied-volatility searches with different brackets in one process.
@@ -571,10 +573,23 @@ def bisect_rank(ctx, block):
         a = torch.tensor(avals, dtype=torch.float64).reshape(shape)
         b = torch.tensor(bvals, dtype=torch.float64).reshape(shape)
         target = torch.tensor(tvals, dtype=tdtype).reshape(tshape)
-        if block["bounds"] == "full":
+        bk = block["bounds"]
+        int_bounds = bk.startswith("int")
+        if bk == "full":
             lower, upper = torch.full(shape, lo, dtype=torch.float64), torch.full(shape, hi, dtype=torch.float64)
-        else:
+        elif bk == "0-dim":
             lower, upper = torch.tensor(lo, dtype=torch.float64), torch.tensor(hi, dtype=torch.float64)
+        # integer-typed brackets: the midpoints are not integers, the search proceeds in floating point
+        elif bk == "int":                   # python ints
+            lower, upper = int(lo), int(hi)
+        elif bk == "int_tensor":            # 0-dim int64 tensors
+            lower, upper = torch.tensor(int(lo)), torch.tensor(int(hi))
+        elif bk == "int_tensor_full":       # per-element int64 tensors
+            lower, upper = torch.full(shape, int(lo), dtype=torch.int64), torch.full(shape, int(hi), dtype=torch.int64)
+        elif bk == "int_lower_float_upper":
+            lower, upper = int(lo), torch.tensor(float(hi), dtype=torch.float64)
+        else:
+            raise KeyError(bk)
         tfull = target.expand(shape).reshape(-1).tolist()
         nstar = max(0, math.ceil(math.log2((hi - lo) / precision)))
         ctx.tick(n, nontrivial=n)
@@ -588,14 +603,16 @@ def bisect_rank(ctx, block):
             ctx.violation("bisect", "raises_on_attainable_precision", f"RuntimeError (max_iter={nstar + 2}) on {block}: {e}",
                           observed=str(e), expected="roots", block=block)
             return
-    if tuple(out.shape) != shape or out.dtype != torch.float64:
+    want_float64 = not int_bounds or bk == "int_lower_float_upper"
+    if tuple(out.shape) != shape or (out.dtype != torch.float64 if want_float64 else not out.is_floating_point()):
         ctx.violation("bisect", "shape_or_dtype_lower_rank_target",
                       f"target of shape {list(tshape)} under a function of shape {list(shape)} (target dtype {block.get('target_dtype', 'float64')}, bounds and coefficients float64, default dtype "
                       f"{block['default_dtype']}): result shape {list(out.shape)} dtype {out.dtype}",
-                      observed=[list(out.shape), str(out.dtype)], expected=[list(shape), "torch.float64"], block=block)
+                      observed=[list(out.shape), str(out.dtype)], expected=[list(shape), "torch.float64" if want_float64 else "a floating dtype"],
+                      block=block)
         return
-    eps = 2.0 ** -52
-    for i, (x, y) in enumerate(zip(out.reshape(-1).tolist(), tfull)):
+    eps = float(torch.finfo(out.dtype).eps)     # the dtype the search ran in
+    for i, (x, y) in enumerate(zip(out.to(torch.float64).reshape(-1).tolist(), tfull)):
         root = ginv_m((mp.mpf(y) - bvals[i]) / avals[i])
         slope = abs(avals[i] * dg_m(root))
         size = abs(avals[i] * g_m(root)) + abs(bvals[i]) + abs(y)
@@ -707,10 +724,14 @@ def model_price(product, call, s, m, t, v):
     return r
 
 
-def monotone_direction(product, call, s, m, t):
-    """+1 / -1 if the model's vega has one strict sign on the whole bracket (at every point of
-    MONO_GRID, ends included), else 0."""
-    key = (product, call, s, m, t)
+def monotone_direction(product, call, s, m, t, lo=None, hi=None):
+    """+1 / -1 if the model's vega has one strict sign on the whole bracket (at 31 log-spaced points, ends
+    included; default bracket [0.001, 1], a lower end 0 is replaced by 0.001), else 0."""
+    grid = MONO_GRID
+    if lo is not None:
+        lo_ = max(lo, V_LO)
+        grid = [lo_ * (hi / lo_) ** (i / 30) for i in range(31)]
+    key = (product, call, s, m, t, lo, hi)
     r = _MONO.get(key)
     if r is None:
         S, M = mp.exp(mp.mpf(s)), mp.exp(mp.mpf(m))
@@ -726,7 +747,7 @@ def monotone_direction(product, call, s, m, t):
                 side = s <= 0
                 flip = -1 if (product == "european_binary" and side != call) else 1
             signs = set()
-            for v in MONO_GRID:
+            for v in grid:
                 if product == "lookback":
                     # same idea: differentiate the volatility-dependent part of the price (price minus the
                     # intrinsic value max(M - K, 0)), which keeps its relative precision
@@ -1127,6 +1148,67 @@ def iv_scalar_price(ctx, block):
         ctx.outcome(("iv_scalar", entry, product, call, block["default_dtype"], round(float(iv[0]), 9)))
 
 
+@family
+def iv_bracket(ctx, block):
+    """find_implied_volatility with the documented ``lower`` / ``upper`` keywords: brackets reaching up to 4 and
+    down to 0, generating volatilities up to 3.9.  STRICT oracle: bisection returns the upper end of a final
+    bracket of width <= precision that contains the root, so
+        |result - sigma| <= precision + spacing of the floats at sigma + (rounding of the price) / |vega|
+    with the last term (model vega at sigma) required to be below precision / 100 (else the element says
+    nothing at this strictness and is skipped and counted)."""
+    product, call, K = block["product"], block["call"], block["K"]
+    lo_b, hi_b = block["bracket"]
+    precision = block["precision"]
+    U = K if product in ("european", "lookback") else 1
+    module = _module(product, call, K)
+    cases = [tuple(c) for c in block["cases"]]
+    cases = [c for c in cases if monotone_direction(product, call, *c, lo_b, hi_b) != 0]
+    if not cases:
+        ctx.add("iv_bracket_blocks_without_monotone_case", 1)
+        return
+    vs = block["v"]
+    rows = [(c, v) for c in cases for v in vs]
+    lm = torch.tensor([c[0] for c, v in rows], dtype=torch.float64)
+    mm = torch.tensor([c[1] for c, v in rows], dtype=torch.float64)
+    tt = torch.tensor([c[2] for c, v in rows], dtype=torch.float64)
+    vv = torch.tensor([v for c, v in rows], dtype=torch.float64)
+    for entry in block.get("entries", ["functional", "functional_bs"]):
+        run = _iv_entry(entry, product, call, K, torch.float64)
+        price = _price_call(module, product, lm, mm, tt, vv)
+        mini = dict(block, entries=[entry])
+        ctx.tick(len(rows))
+        try:
+            with watchdog(100, work=10):
+                iv = run(lm, mm, tt, price, precision=precision, lower=lo_b, upper=hi_b)
+        except _Hang:
+            ctx.violation("find_implied_volatility", "hang", f"did not stop on bracket {block['bracket']}", block=mini)
+            continue
+        except RuntimeError as e:
+            ctx.violation("find_implied_volatility", "raises_with_bracket",
+                          f"find_implied_volatility({CLASSES[product]} price, lower={lo_b}, upper={hi_b}, precision={precision}) raised {e} "
+                          f"although {math.ceil(math.log2((hi_b - lo_b) / precision))} halvings suffice", observed=str(e), block=mini)
+            continue
+        nontriv = 0
+        for (case, v), x in zip(rows, iv.tolist()):
+            s, m, t = case
+            vega = abs(U * B.greek("vega", product, mp.exp(mp.mpf(s)), mp.exp(mp.mpf(m)), 1, t, v, call))
+            slack = price_tol(product, s, m, t, v, K, float(U * model_price(product, call, s, m, t, v))) / float(vega) if vega > 0 else math.inf
+            if slack > precision / 100:
+                ctx.add("iv_bracket_elements_skipped_flat_price", 1)
+                continue
+            nontriv += 1
+            tol = precision + math.ulp(v) + slack
+            if x != x or abs(x - v) > tol:
+                ctx.violation("find_implied_volatility", "iv_bracket_strict",
+                              f"find_implied_volatility({CLASSES[product]}(call={call}, strike={K}) price via {entry}, lower={lo_b}, "
+                              f"upper={hi_b}, precision={precision}) at (s={s}, m={m}, t={t}): price of volatility {v} gives {x!r} "
+                              f"(|diff| {abs(x - v):.3e} > {tol:.3e})", observed=x, expected=v,
+                              block=dict(mini, cases=[list(case)], v=[v]))
+                break
+        ctx.add("distinct_nontrivial", nontriv)
+        ctx.outcome(("iv_bracket", entry, product, call, tuple(block["bracket"]), round(float(iv[0]), 7)))
+
+
 IV_BRACKETS = [[0.001, 1.0], [0.3, 1.0], [0.001, 0.5], [0.05, 2.0]]
 
 
@@ -1303,6 +1385,14 @@ def run(ctx):
         ctx.run("bisect_rank", {"fn": name, "decreasing": decreasing, "shape": shape, "tshape": tshape, "bounds": "0-dim",
                                 "bracket": [-0.5 if name != "affine" else 0.5, 3.5], "precision": precision, "default_dtype": dd,
                                 "target_dtype": tdt, "fractions": [0.3, 0.55, 0.8, 0.1], "rotation": 0})
+    # integer-typed brackets: python ints, int64 tensors (0-dim, per element), one integer and one float bound
+    for name, decreasing, (shape, tshape), bk, tdt, dd in itertools.product(
+            ["affine", "exp", "cubic"], [False, True], [([3], []), ([3], [3]), ([2, 3], [3])],
+            ["int", "int_tensor", "int_tensor_full", "int_lower_float_upper"], ["float64", "float32", "int64"], ["float32", "float64"]):
+        for precision in ([1e-2, 1e-4] if dd == "float32" and bk != "int_lower_float_upper" else [1e-4, 1e-8]):
+            ctx.run("bisect_rank", {"fn": name, "decreasing": decreasing, "shape": shape, "tshape": tshape, "bounds": bk,
+                                    "bracket": [1, 8] if name == "affine" else [0, 4], "precision": precision, "default_dtype": dd,
+                                    "target_dtype": tdt, "fractions": [0.3, 0.55, 0.8, 0.1], "rotation": 0})
     # functions whose value is computed by autograd, with grad enabled and under an ambient no_grad
     for name, ambient, shape, precision in itertools.product(AUTOGRAD_PROGRAMS, ["enable", "no_grad"], [[], [3]],
                                                              [1e-4, 1e-6] if quick else [1e-2, 1e-4, 1e-6, 1e-8]):
@@ -1380,6 +1470,20 @@ def run(ctx):
                     cs = [c for c in cs if not (product == "american_binary" and c[1] >= 0)]
                     ctx.run("iv_subulp", {"product": product, "call": call, "K": 1.3, "dtype": dname, "precision": precision,
                                           "cases": cs, "v": [0.2, 0.35, 0.7]})
+    # brackets given by keyword, up to volatility 4 and down to 0, strict oracle
+    ctx.alphabet("iv brackets (keywords)", [[0.001, 4.0], [0.0, 1.0], [0.0, 4.0]])
+    for product in B.PRODUCTS:
+        for call in ([True, False] if product in ("european", "european_binary") else [True]):
+            if product in NEEDS_MAX:
+                cs = [[-0.2, -0.1, 0.25], [-0.1, -0.05, 0.08]]
+            elif product == "european_binary":
+                cs = [[0.1, 0.1, 0.25], [0.3, 0.3, 0.08]] if call else [[-0.1, -0.1, 0.25], [-0.3, -0.3, 0.08]]
+            else:
+                cs = [[-0.1, -0.1, 0.25], [0.0, 0.0, 0.08], [0.1, 0.1, 0.25]]
+            for bracket, vs_ in (([0.001, 4.0], [0.3, 1.2, 2.5, 3.9]), ([0.0, 1.0], [0.2, 0.7]), ([0.0, 4.0], [0.3, 1.2, 2.5, 3.9])):
+                for precision in ([1e-6] if quick else [1e-4, 1e-6, 1e-8]):
+                    ctx.run("iv_bracket", {"product": product, "call": call, "K": 1.3, "cases": cs, "v": vs_, "bracket": bracket,
+                                           "precision": precision})
     # one scalar float64 price against vector log-moneyness / maturity
     for product in B.PRODUCTS:
         for call in ([True, False] if product in ("european", "european_binary") else [True]):
